@@ -6,6 +6,7 @@ require (
 	github.com/PowerDNS/lightningstream v0.0.0
 	github.com/PowerDNS/lmdb-go v1.9.3
 	github.com/PowerDNS/simpleblob v1.0.0
+	github.com/prometheus/client_golang v1.23.2
 	github.com/sirupsen/logrus v1.9.4
 	pgregory.net/rapid v1.3.0
 )
@@ -20,7 +21,6 @@ require (
 	github.com/golang/protobuf v1.5.4 // indirect
 	github.com/klauspost/compress v1.18.6 // indirect
 	github.com/munnerz/goautoneg v0.0.0-20191010083416-a7dc8b61c822 // indirect
-	github.com/prometheus/client_golang v1.23.2 // indirect
 	github.com/prometheus/client_model v0.6.2 // indirect
 	github.com/prometheus/common v0.68.0 // indirect
 	github.com/prometheus/procfs v0.16.1 // indirect
